@@ -31,7 +31,8 @@ def name_pool():
     base = ["A", "B", "READ_10", "write", "x1", "_private", "lower_case", "MiXeD", "Z9", "INQUIRY", "a", "b", "c", "d", "e", "f", "g", "_", "_0", "k_9",
             # ordinary words that an implementation might also use for its own parameters or bookkeeping
             "name", "value", "code", "type", "id", "self", "args", "kwargs", "key", "opcode", "serviceaction", "items", "values", "get",
-            "update", "pop", "dict", "enum", "data", "result", "bases", "attrs",
+            "update", "pop", "dict", "enum", "data", "result", "bases", "attrs", "cls", "mcs", "metacls", "klass", "obj", "other", "kw", "kwds", "func", "fn", "mapping", "iterable",
+            "entries", "member", "item", "k", "v", "n",
             # words for "nothing found", defaults and bookkeeping
             "NOT_FOUND", "not_found", "NOTFOUND", "DEFAULT", "default", "MISSING", "missing", "UNKNOWN", "unknown", "NONE", "EMPTY", "table", "_table", "cache", "_cache",
             "lookup", "reverse", "names", "members", "_keys", "_values", "by_value", "index", "mro",
@@ -65,6 +66,9 @@ def value_pool(rng, mod):
     ]
     # values that cannot be printed (an OpCode whose code is not a number, an object whose __str__ / __repr__ raise): an
     # enumeration stores and returns them like any other value, and refuses / accepts names as for any other value
+    # containers that have an equal value of another type (set / frozenset, bytearray / bytes, list is never equal to a tuple)
+    kinds[10:10] = [lambda: {1, rng.randrange(2, 6)}, lambda: frozenset({1, rng.randrange(2, 6)}), lambda: bytearray([rng.randrange(4), 7]), lambda: bytes([rng.randrange(4), 7]),
+              lambda: [1, rng.randrange(3)], lambda: rng.choice([1.0, 2.0, 3.0]), lambda: complex(rng.randrange(3), 0)]
     kinds[10:10] = [lambda: OpCode("OP", rng.choice([None, 2.5, "2A"]), {}), lambda: Grumpy(), lambda: (OpCode("OP", None, {}),), lambda: {"nested": Grumpy()}]
     return kinds
 
@@ -104,6 +108,16 @@ def state_of(v):
 
 class StrSub(str):
     pass
+
+
+class StrMember(str):
+    """a str that also has .name / .value of its own, as the members of an enum.StrEnum have (their text is what counts)"""
+
+    def __new__(cls, text, name, value):
+        o = str.__new__(cls, text)
+        o.name = name
+        o.value = value
+        return o
 
 
 class WithValue:
@@ -198,6 +212,19 @@ def compare(ctx, enums, wit, step):
             near += [v - 256, v + 256, -v - 1, -v, v + 1, str(v), float(v) + 0.5, (v,)]
         for v in ints[:3]:
             near += [WithValue(v), Indexable(v), PROBE_OPCODE(v)]
+        # an equal value of the sibling type finds the name as the value itself does (frozenset({1, 2}) == {1, 2}, b"..." ==
+        # bytearray(b"..."), 2.0 == 2 == True + 1); an unequal relative (the tuple of a list) does not
+        for v in list(model.values())[:12]:
+            if isinstance(v, (set, frozenset)):
+                near += [frozenset(v), set(v), tuple(sorted(v))] if all(isinstance(x, int) for x in v) else []
+            elif isinstance(v, (bytes, bytearray)):
+                near += [bytes(v), bytearray(v), list(v), memoryview(bytes(v))]
+            elif isinstance(v, list):
+                near += [tuple(v), list(v)]
+            elif isinstance(v, float) and v == int(v):
+                near += [int(v), complex(v, 0)]
+            elif isinstance(v, complex):
+                near += [int(v.real), v.real]
         far = [-1, -2, -128, -255, -256, -257, 255, 256, 65535, 1 << 40, -(1 << 40), "", "absent", None, (), 0.25]
         for probe in list(model.values()) + [("absent", object)] + near + far[(step_hash(step) % 4)::4]:
             want = ""
@@ -283,7 +310,7 @@ def run(shard, ctx):
     for h in range(shard["n"]):
         VALUE_STATES.clear()
         allow_callables = rng.random() < 0.3
-        ks = kinds if allow_callables else kinds[:14]
+        ks = kinds if allow_callables else kinds[:21]  # (the last four are callables)
         enums = []
         log = []
         for i in range(rng.randint(2, 4)):
@@ -300,8 +327,8 @@ def run(shard, ctx):
                 if state_of(vv) is not None and id(vv) not in VALUE_STATES:
                     VALUE_STATES[id(vv)] = (vv, state_of(vv))
             form = rng.choice(["dict", "kwargs", "opcode"])
-            if form == "kwargs" and not init:
-                form = "dict"
+            if form == "kwargs" and (not init or "cls" in init):
+                form = "dict"  # (the keyword form cannot spell a name that is the constructor's own first parameter: Python refuses the call)
             src = dict(init)  # the caller's own dictionary: theirs to reuse once the enumeration is built
             try:
                 if form == "dict":
@@ -314,7 +341,7 @@ def run(shard, ctx):
                         E = op.serviceaction
                         op = None
             except Exception as e:  # noqa: BLE001
-                ctx.fail("C18:construct_raises.%s" % form, "Enum(%r) raised %s" % (init, type(e).__name__), {"init": init, "form": form}, exc=e)
+                ctx.fail("C18:construct_raises.%s" % form, "Enum(%s) raised %s" % (safe_repr(init), type(e).__name__), {"init": safe_repr(init), "form": form}, exc=e)
                 continue
             if rng.random() < 0.5:
                 # the caller refills its scratch dictionary for the next enumeration
@@ -349,8 +376,8 @@ def run(shard, ctx):
             if op == "add":
                 k = rng.choice(names)
                 if rng.random() < 0.15:
-                    k = StrSub(k)  # a name that is a str (an enum.StrEnum member, a user's subclass of str): the same name
-                    ctx.count("names_of_str_subclasses")
+                    k = StrSub(k) if rng.random() < 0.6 else StrMember(k, rng.choice(list(model) + ["OTHER_MEMBER"]), 7)
+                    ctx.count("names_of_str_subclasses")  # a name that is a str (an enum.StrEnum member, a user's subclass of str): the same name
                 v = rng.choice(list(model.values())) if model and rng.random() < 0.3 else rng.choice(ks)()
                 log.append(("add", idx, k, kind_name(v), k in model))
                 try:
@@ -375,6 +402,10 @@ def run(shard, ctx):
                     ctx.fail("C18:add_raises.%s" % type(e).__name__, "add(%r, %s) raised %s" % (k, kind_name(v), type(e).__name__), wit, exc=e)
             elif op == "remove":
                 k = rng.choice(list(model)) if model and rng.random() < 0.7 else rng.choice(names)
+                if rng.random() < 0.15:
+                    # the name as a str with attributes of its own: another present name, an absent one, its own text
+                    k = StrMember(k, rng.choice(list(model) + [k, "ABSENT_MEMBER"]), rng.choice([k, 3, "text"]))
+                    ctx.count("names_with_attributes_of_their_own")
                 log.append(("remove", idx, k, k in model))
                 try:
                     if rng.random() < 0.3:
